@@ -40,7 +40,7 @@ import time
 import zipfile
 from pathlib import Path
 
-from common import Check, REPO, import_repo, run_check, run_driver
+from common import Check, REPO, call, import_repo, run_check, run_driver
 
 THEOREMS = [
     "SleapVerif.C19.fs_blank_of_all_blank",
@@ -1189,10 +1189,77 @@ def mk_killed_A(rng, b=None):
     return mk_same(rng, a, b or rand_case(rng))
 
 
+def cwd_output_cases(chk: Check):
+    """save_ckpt_path = None: the artefacts go to the working directory (added after C19-r9m1, where the resolved
+    '.' was written back into the configuration before initial_config.yaml was saved).  `ModelTrainer.__init__`
+    alone writes initial_config.yaml, so no training is needed: for every model type, plain and structured
+    configuration, the file found in the working directory is compared leaf by leaf with the configuration the
+    caller passed (`initial_vs_raw`, the oracle of clause (b)) and scanned for the key."""
+    import shutil
+    import tempfile
+
+    from omegaconf import OmegaConf
+    from sleap_nn.training.model_trainer import ModelTrainer
+
+    for m, structured, w in itertools.product(MODELS, [0, 1], [0, 1]):
+        case = mk(m, "torch_dataset", w, 1, structured, 0, sep=False, seed=1234)
+        case["cwd_output"] = True
+        scratch = tempfile.mkdtemp(prefix="verif_c19_cwd_")
+        cwd0 = os.getcwd()
+        saved_fds = None
+        try:
+            cwd = os.path.join(os.path.realpath(scratch), "cwd")
+            os.makedirs(cwd)
+            run = {"scratch": scratch, "ckpt_dir": None, "np_chunks_path": None}
+            run["labels"] = labels_for(case, run)
+            cfg = (structured_config if structured else plain_config)(case, run)
+            raw_input = json.loads(json.dumps(OmegaConf.to_container(cfg, resolve=True)))
+            sys.stdout.flush(); sys.stderr.flush()
+            logf = os.open(os.path.join(scratch, "console.log"), os.O_WRONLY | os.O_CREAT | os.O_TRUNC)
+            saved_fds = (os.dup(1), os.dup(2))
+            os.dup2(logf, 1); os.dup2(logf, 2); os.close(logf)
+            os.chdir(cwd)
+            r = call(ModelTrainer, cfg)
+            os.chdir(cwd0)
+            sys.stdout.flush(); sys.stderr.flush()
+            os.dup2(saved_fds[0], 1); os.dup2(saved_fds[1], 2); os.close(saved_fds[0]); os.close(saved_fds[1])
+            saved_fds = None
+            chk.case(("cwd_output", m, structured, w), tags=["cwd_output_initial_config"])
+            if r[0] == "raise":
+                chk.fail("C19 fails: ModelTrainer(config with save_ckpt_path=None) raised", case, list(r[1:]))
+                continue
+            ini_p = os.path.join(cwd, "initial_config.yaml")
+            if not os.path.exists(ini_p):
+                chk.fail("C19 fails: save_ckpt_path=None, no initial_config.yaml in the working directory", case,
+                         sorted(os.listdir(cwd)))
+                continue
+            ini = read_config_file(ini_p)
+            if ini[0] != "yaml":
+                chk.fail("C19 fails: save_ckpt_path=None, initial_config.yaml unreadable", case, list(ini))
+                continue
+            diffs = initial_vs_raw(raw_input, ini[1])
+            if diffs or ini[2]:
+                chk.fail("C19 fails: save_ckpt_path=None (outputs in the working directory): initial_config.yaml is not "
+                         "the configuration supplied" + (" and contains the API key" if ini[2] else ""), case, diffs[:6])
+        finally:
+            if saved_fds is not None:
+                os.chdir(cwd0)
+                sys.stdout.flush(); sys.stderr.flush()
+                os.dup2(saved_fds[0], 1); os.dup2(saved_fds[1], 2)
+            try:
+                import wandb
+                if wandb.run is not None:
+                    wandb.finish()
+            except Exception:
+                pass
+            shutil.rmtree(scratch, ignore_errors=True)
+
+
 def main(chk: Check):
     chk.build_and_audit()
     import_repo()
     rng = chk.rng
+    cwd_output_cases(chk)
     cases = []
     opt = lambda: {"save_last": rng.random() < 0.5, "auto_prep": rng.random() < 0.4, "early_stop": rng.random() < 0.3}  # noqa: E731
     # the witnesses of the (fixed) findings F-C19 / F-C19b always run first (they are the regression replays)
@@ -1309,6 +1376,10 @@ def main(chk: Check):
 def replay(chk: Check, payload):
     import_repo()
     case = payload.get("case") or payload["disagreements"][0]["case"]
+    if case.get("cwd_output"):
+        cwd_output_cases(chk)      # the sixteen working-directory observations (construction only)
+        print(f"replay cwd_output: failing={len(chk.failing)}")
+        return
     rec, verdict = check_case(chk, case)
     flush_pending(chk, [verdict])
     print(f"replay case={case} verdict={verdict}\n trace={rec['trace']}\n exception={rec['exception']}\n"
@@ -1362,7 +1433,7 @@ if __name__ == "__main__":
                      "scale=None __init__ would fill it in and the second file would no longer be the supplied config)",
                      "litdata framework is outside the property's quantifier; UNet backbone only",
                      "histories, aborted and low-memory runs always carry a key; runs without one ('' / None / field missing / "
-                     "wandb section missing) are fresh runs; save_ckpt_path is always given (None -> '.' never run); resume_ckpt_path, prv_runid, profiler, "
+                     "wandb section missing) are fresh runs; save_ckpt_path is given in every full run; None (outputs in the working directory) is observed for initial_config.yaml only, by constructing ModelTrainer without training (16 cases); resume_ckpt_path, prv_runid, profiler, "
                      "trainer_strategy, rank != 0: never run",
                      "a same-folder history has two runs; use_existing_chunks in the same folder is not run"],
     )
